@@ -11,6 +11,24 @@ CHECKS = [
      "text": "Lean theorems over all histories of (objective, violation) pairs, NaN included, any length, any filter size: coverage of evaluated points by the filter, feasible-first selection, merit minimality, non-domination, NaN never preferred. The model mirrors Problem.__call__'s filter block and best_eval statement by statement and is compared with the real Problem after every insertion; the post-condition is evaluated in Lean on the implementation's answers.",
      "note": "Theorems are about lean/CobyqaVerif/Model/Filter.lean; the tie to problem.py is the sampled correspondence (exact comparison). Merit clauses assume monotone computed merit (checked per instance). Trusted: Lean kernel + 3 standard axioms, harness, binary64 order = integer key order.",
      "technique": "Lean 4 proof (induction over histories) + differential correspondence"},
+    {"id": "C05", "level": "proof",
+     "text": "Lean theorems by induction over every event trace the run skeleton accepts: evaluations <= maxfev at every prefix, iterations <= maxiter, nfev = number of evaluations (no separate case for fun=None), nit = number of iterations, histories = last history_size evaluations. Real runs (maxfev around nb_points, small maxiter, feasibility problems, history sizes) are recorded and replayed through the skeleton.",
+     "note": RUNNOTE, "technique": "Lean 4 proof (state-machine invariants) + trace validation of real runs"},
+    {"id": "C06", "level": "proof",
+     "text": "The skeleton accepts user-function calls only inside an evaluation bracket, at the user-space image of the evaluated point, objective exactly once, constraints at most once; Lean theorems derive the counting statements (objective calls = nfev, constraint calls <= nfev, skipped only at the identical previous point). Every user call of real runs is logged by spies and replayed.",
+     "note": RUNNOTE + " The user-space image of an internal point is recomputed by the harness from the user's bounds/scale (harness/trace.py expected_user_point), independently of Problem.build_x.",
+     "technique": "Lean 4 proof (state-machine invariants, call counting) + trace validation of real runs"},
+    {"id": "C07", "level": "proof",
+     "text": "Lean theorems over every accepted trace: the status is one of the nine codes and certifies its documented situation (0: resolution <= radius_final; 1/4/3: the most recent evaluation satisfied that request; 2/-1: fixed / inconsistent bounds; 5: nfev = maxfev; 6: nit = maxiter); success implies status 0-4, finite fun and maxcv and maxcv <= tol except for 1 and 4. Real runs reaching all nine statuses (LinAlgError injected) are replayed.",
+     "note": RUNNOTE + " Not covered: the message strings (checked only by direct comparison in the harness, no theorem).",
+     "technique": "Lean 4 proof (exit-status invariant of the run skeleton) + trace validation of real runs"},
+    {"id": "C09", "level": "proof",
+     "text": "Lean theorem stop_takes_effect: from a state in which an evaluation has satisfied a stopping request every accepted continuation is quiet (no evaluation, user call, callback, iteration), the result carries that request's status and nfev is the index of that evaluation; evalEnd_sets_request states exactly when a request fires, with the priorities of the code. Real runs with triggers at the first point, during sampling and at trust-region / SOC / geometry evaluations are replayed.",
+     "note": RUNNOTE, "technique": "Lean 4 proof (absorbing stopped states) + trace validation of real runs"},
+    {"id": "C20", "level": "proof",
+     "text": "Lean theorems: an accepted callback call is inside an evaluation after the filter update, once, and its argument is wouldReturn(filter, penalty in force) - the selection of Model/Filter.lean that result_is_would_return shows _build_result uses; callback calls = nfev; StopIteration at call k gives status 3 and nfev = k. Real runs with five callback shapes, overwriting callbacks and stops at every k are replayed.",
+     "note": RUNNOTE + " Signature introspection and freshness of the array are exercised by the harness (callback shapes, overwriting callbacks) but have no theorem.",
+     "technique": "Lean 4 proof (state-machine invariants + filter selection) + trace validation of real runs"},
 ]
 NOT_APPLICABLE = [{"property_id": f"C{i:02d}", "reason": _PENDING} for i in range(1, 21) if f"C{i:02d}" not in {c["id"] for c in CHECKS}]
 ENGINES[0]["serves_properties"] = [c["id"] for c in CHECKS]
